@@ -37,18 +37,20 @@ package colors
 //@
 //@ func FprintDelete(w, s)
 //@   mode str
+//@   ghost delText = store(delText, nDelPrinted, s)
 //@   ghost nDelPrinted = nDelPrinted + 1
-//@   assigns wbuf[w], nDelPrinted
-//@   ensures nDelPrinted == old(nDelPrinted) + 1
+//@   assigns wbuf[w], nDelPrinted, delText
+//@   ensures nDelPrinted == old(nDelPrinted) + 1 && delText == store(old(delText), old(nDelPrinted), s)
 //@   ensures NOCOLOR ==> wbuf[w] == old(wbuf[w]) + "- " + s
 //@   ensures !NOCOLOR ==> len(wbuf[w]) > len(old(wbuf[w])) + len(s)
 //@   ensures prefixof(old(wbuf[w]), wbuf[w])
 //@
 //@ func FprintInsert(w, s)
 //@   mode str
+//@   ghost insText = store(insText, nInsPrinted, s)
 //@   ghost nInsPrinted = nInsPrinted + 1
-//@   assigns wbuf[w], nInsPrinted
-//@   ensures nInsPrinted == old(nInsPrinted) + 1
+//@   assigns wbuf[w], nInsPrinted, insText
+//@   ensures nInsPrinted == old(nInsPrinted) + 1 && insText == store(old(insText), old(nInsPrinted), s)
 //@   ensures NOCOLOR ==> wbuf[w] == old(wbuf[w]) + "+ " + s
 //@   ensures !NOCOLOR ==> len(wbuf[w]) > len(old(wbuf[w])) + len(s)
 //@   ensures prefixof(old(wbuf[w]), wbuf[w])
